@@ -174,12 +174,15 @@ class Open(object):
                             self.capa_dict['add_path'] = []
                         while len(capability.capa_value) % 4 == 0 and capability.capa_value:
                             afi, safi, send_rev = struct.unpack('!HBB', capability.capa_value[:4])
-                            self.capa_dict['add_path'].append(
-                                {
-                                    'afi_safi': bgp_cons.AFI_SAFI_DICT[(afi, safi)],
-                                    'send/receive': bgp_cons.ADD_PATH_ACT_DICT[send_rev]
-                                }
-                            )
+                            # RFC 5492: what is not understood (an address family or a send/receive value
+                            # this speaker has no name for) is ignored, it does not invalidate the OPEN
+                            if (afi, safi) in bgp_cons.AFI_SAFI_DICT and send_rev in bgp_cons.ADD_PATH_ACT_DICT:
+                                self.capa_dict['add_path'].append(
+                                    {
+                                        'afi_safi': bgp_cons.AFI_SAFI_DICT[(afi, safi)],
+                                        'send/receive': bgp_cons.ADD_PATH_ACT_DICT[send_rev]
+                                    }
+                                )
                             capability.capa_value = capability.capa_value[4:]
 
                     # (9) Long-Lived Graceful Restart (LLGR) Capability
